@@ -722,6 +722,59 @@ func stmtLists(n syntax.Node, fn func(stmts []*syntax.Stmt)) {
 	})
 }
 
+// hdocBodyStart: the source offset at which the body of r starts (for an empty body: the offset
+// of the delimiter line), -1 when unknown.
+func hdocBodyStart(src string, r *syntax.Redirect) int {
+	if r.Hdoc != nil && len(r.Hdoc.Parts) > 0 {
+		return int(r.Hdoc.Pos().Offset())
+	}
+	if r.Word == nil {
+		return -1
+	}
+	delim := ""
+	var lit func(ps []syntax.WordPart) bool
+	lit = func(ps []syntax.WordPart) bool {
+		for _, p := range ps {
+			switch x := p.(type) {
+			case *syntax.Lit:
+				delim += strings.ReplaceAll(x.Value, "\\", "")
+			case *syntax.SglQuoted:
+				delim += x.Value
+			case *syntax.DblQuoted:
+				if !lit(x.Parts) {
+					return false
+				}
+			default:
+				return false
+			}
+		}
+		return true
+	}
+	if !lit(r.Word.Parts) || delim == "" {
+		return -1
+	}
+	from := int(r.Word.End().Offset())
+	if from > len(src) {
+		return -1
+	}
+	for i := from; i < len(src); i++ {
+		if src[i] != '\n' {
+			continue
+		}
+		line := src[i+1:]
+		if j := strings.IndexByte(line, '\n'); j >= 0 {
+			line = line[:j]
+		}
+		if r.Op == syntax.DashHdoc {
+			line = strings.TrimLeft(line, "\t")
+		}
+		if line == delim {
+			return i + 1
+		}
+	}
+	return -1
+}
+
 func hdocDelimQuoted(w *syntax.Word) bool {
 	for _, p := range w.Parts {
 		l, ok := p.(*syntax.Lit)
@@ -1068,6 +1121,14 @@ func c01Excluded(tc l4Case, f *syntax.File, sh *shape) string {
 				return false
 			}
 			sameLine := left.Line() == r.OpPos.Line()
+			if !sameLine {
+				// or it starts before the body of the here-document: then no newline between the
+				// operator and the substitution was one the parser read bodies at (line breaks
+				// inside $(( )), buried constructs …), and the printer may join those lines
+				if bs := hdocBodyStart(tc.Src, r); bs >= 0 && int(left.Offset()) < bs {
+					sameLine = true
+				}
+			}
 			if !sameLine {
 				// or the substitution is in the right operand of a binary command that starts on
 				// the operator's line (escaped newlines in between are dropped by the printer)
